@@ -4,6 +4,7 @@ import TakVerif.Impl.Alloc
 import TakVerif.Impl.Book
 import TakVerif.Impl.Bot
 import Driver.SolverState
+import TakVerif.Impl.Serve
 namespace Driver
 open Tak
 
@@ -20,6 +21,7 @@ structure St where
   symBook : Option Tak.Book := none
   bot : Option Tak.Bot.Session := none      -- C07: the bot game of the current `case`
   solvers : SolverSession := {}           -- C06: cache of the last exactly solved game graph
+  serve : Tak.Serve.Server Tak.Move := {}  -- C05serve/C15serve: the one server object of the current `case`
 deriving Inhabited
 
 /-- a handler returns `none` when the op is not its own -/
